@@ -623,3 +623,33 @@ MUTANTS += [
     T("c09-twin-bubble-sort-n-minus-one-passes", ["C09", "C14"], UT,
       "    for _ in range(len(sorted_list)):\n        sorted_list, asst = bubble_up(sorted_list)", "    for _ in range(len(sorted_list) - 1):\n        sorted_list, asst = bubble_up(sorted_list)"),
 ]
+
+MUTANTS += [
+    # ---- after the third round of sub-agent twins: the equivalences the engine now recognises must not hide the neighbouring breaks ----
+    T("c18-twin-buffer-levels-all-none", ["C18"], BUF,
+      "        if self.initial_level is None and self.final_level is None:",
+      "        if all(level is None for level in (self.initial_level, self.final_level)):"),
+    B("c18-buffer-levels-any-none", ["C18"], BUF,
+      "        if self.initial_level is None and self.final_level is None:",
+      "        if any(level is None for level in (self.initial_level, self.final_level)):"),
+    T("c18-twin-add-buffer-any", ["C18"], PB,
+      "        if buffer.name in [b.name for b in self.buffers]:",
+      "        if any(b.name == buffer.name for b in self.buffers):"),
+    B("c18-add-buffer-compares-the-object", ["C18"], PB,
+      "        if buffer.name in [b.name for b in self.buffers]:",
+      "        if any(b.name == buffer for b in self.buffers):"),
+    B("c18-add-buffer-all-instead-of-any", ["C18"], PB,
+      "        if buffer.name in [b.name for b in self.buffers]:",
+      "        if self.buffers and all(b.name == buffer.name for b in self.buffers):"),
+    B("c18-task-stored-before-the-duplicate-test", ["C18", "C01"], PB,
+      "        if task.name in self.tasks:\n            raise ValueError(\n                f\"a Task instance with the name {task.name} already exists.\"\n            )\n        self.tasks[task.name] = task\n",
+      "        known = task.name in self.tasks\n        self.tasks[task.name] = task\n        if known:\n            raise ValueError(\n                f\"a Task instance with the name {task.name} already exists.\"\n            )\n"),
+    T("c02-twin-unit-workers-from-the-shares", ["C02"], RS,
+      "            for i in range(self.size)\n        ]", "            for i in range(len(productivities))\n        ]"),
+    B("c02-one-unit-worker-missing", ["C02"], RS,
+      "            for i in range(self.size)\n        ]", "            for i in range(len(productivities) - 1)\n        ]"),
+    T("c02-twin-busy-intervals-by-key", ["C02", "C05"], RS,
+      "        return list(self._busy_intervals.values())", "        return [self._busy_intervals[t] for t in self._busy_intervals]"),
+    B("c02-busy-intervals-all-but-the-first", ["C02"], RS,
+      "        return list(self._busy_intervals.values())", "        return [self._busy_intervals[t] for t in list(self._busy_intervals)[1:]]"),
+]
